@@ -17,12 +17,13 @@ META = {
             "them at STARTED, drop every subtask exactly once and never trap the host. Held on the executions observed; nothing is proved.",
     "note": "Trusted: cabi-ref, the positional observation channel, rt-host's reading of the canonical built-ins, hooks H1/H2. "
             "Covered: freestanding functions of handle-free worlds (all value types except fixed-length lists, whose defects are C05/C06 findings); "
-            "async imports driven by block_on and as tasks; async exports with callback. Left out of this version: resources / borrow handles "
-            "(so 'no borrow outlives task.return' is not observed), stream/future/error-context types, stackful async lift, several tasks at once. "
+            "async imports driven by block_on and as tasks; async exports with callback. Resources only as borrow<imported resource> parameters of async exports in a "
+            "directed world (host borrow accounting: every lent borrow dropped before task.return); own handles, exported resources and async "
+            "methods are left out, as are stream/future/error-context types, stackful async lift and several tasks at once. "
             "The generated async glue derives its layouts from size_of::<*const u8>() (checked textually on every run), so native 64-bit runs are "
             "sound for these worlds; the Miri shard runs with 32-bit pointers. Generated code that does not compile is a lead for C09, not a verdict.",
 }
-FLOORS = {"quick": (1500, 40), "thorough": (40000, 600)}
+FLOORS = {"quick": (1500, 40), "thorough": (15000, 300)}
 PREFIXES = ("rust-async:",)
 
 
